@@ -68,6 +68,10 @@ def placeholder(h, I):
 
 
 def gen_replay(o):
+    tv = native.one({"cmd": "tv_diff", "count": 150, "seed": 5, "limit": 1})
+    if tv["failures"]:
+        return {"input": tv["failures"][0], "reproduced": True, "oracle_case": (o.model or {}),
+                "note": "generated programs through the REAL generator: generated Python AST differs from D(ast)"}
     r = native.one({"cmd": "pipeline_diff", "count": 200, "seed": 5, "limit": 1})
     order = ["internal-error", "compile", "routing", "literal", "bucket", "module", "inert", "irrelevance", "total", "ast"]
     f = next((r["failures"][k][0] for k in order if k in r["failures"]), None)
@@ -80,6 +84,9 @@ def case_replay(o):
     m = o.model or {}
     prog = m.get("program")
     if prog:
+        tv = native.one({"cmd": "tv_diff", "programs": [prog], "limit": 1})
+        if tv["failures"]:
+            return {"input": tv["failures"][0], "reproduced": True, "note": "the case's DSL program through the REAL generator: generated Python AST differs from D(ast)"}
         r = native.one({"cmd": "pipeline_diff", "programs": [prog], "limit": 1, "envs": 8})
         f = next((v[0] for v in r["failures"].values() if v), None)
         if f:
@@ -246,7 +253,7 @@ def link_generator(ctx, mutate=None, tag=""):
             ok = isinstance(r, S.SeqT) and r.op == "sorted" and r.args[0].atoms == me.attrs[attr].atoms
             struct_obl("%s/==sorted(set)" % prop, prop, "%s is the sorted list of the DISTINCT names (no dependence on set iteration order or declaration order)" % prop,
                        ok, repr(r), ("C01", "C09", "C12"), model={"result": repr(r)})
-    run("helpers", "indent", ("C02", "C14", "C01"), helpers)
+    run("helpers", "indent", ("C02", "C14", "C01", "C07", "C09", "C12", "C13"), helpers)
 
     # ---- B. operators --------------------------------------------------------------------------------------------
     def ops():
@@ -323,7 +330,7 @@ def link_generator(ctx, mutate=None, tag=""):
                 cases.append(Case(pre + "_generate_term/%s[%d] denotes the literal" % (kind, i), GFN + "_generate_term",
                                   "the rendered term is a Python expression denoting exactly %r (value and type)" % (v,), "(" + real + ")", "(" + D.term(v) + ")",
                                   ("C05", "C13", "C02", "C07") if kind != "tuple" else ("C05", "C07", "C02"), mode="eval", note={"value": repr(v), "program": prog}, replay=case_replay))
-    run("terms", "_generate_term", ("C05", "C07", "C13"), terms)
+    run("terms", "_generate_term", ("C05", "C07", "C13", "C02", "C09"), terms)
 
     # ---- D. predicates -------------------------------------------------------------------------------------------
     def preds():
@@ -389,7 +396,8 @@ def link_generator(ctx, mutate=None, tag=""):
         struct_obl("_generate_group_return_statement/position-aligned", "_generate_group_return_statement",
                    "population and weights are both maps over the SAME group list in declaration order (group i <-> weight i)", ok, repr(t), ("C03", "C10", "C02"),
                    model={"template": repr(t)})
-        pools = [[("A", 1.0), ("B", 2.0)], [("b", 0.2), ("a", 0.2), ("c", 0.6)], [(0, 1.0), (1.5, 0.5), ("0", 3.4)], [("it's", 1.0), ("C:\\temp", 1e-9), ("", 1e9)], [(9007199254740993, 1.0)]]
+        pools = [[("A", 1.0), ("B", 2.0)], [("b", 0.2), ("a", 0.2), ("c", 0.6)], [(0, 1.0), (1.5, 0.5), ("0", 3.4)], [("it's", 1.0), ("C:\\temp", 1e-9), ("", 1e9)], [(9007199254740993, 1.0)],
+                 [("a", 1234567.0), ("b", 7654321.0)], [("a", 0.1234567), ("b", 0.7654321), ("c", 123456789.125)]]
         for i, pool in enumerate(pools):
             I = T.Interp({gs.id: [{"group_definition": d, "group_weight": w} for d, w in pool]}, base_depth=3, placeholder=placeholder)
             real = T.render(t, I)
@@ -398,7 +406,7 @@ def link_generator(ctx, mutate=None, tag=""):
                               "`return partial(deterministic_choice, population=[...], weights=[...])` with exact labels (value and type) in declaration order",
                               "def f():\n\tdef g():\n\t\tif x:\n" + real, "def f():\n\tdef g():\n\t\tif x:\n" + D.group_return(3, pool), ("C03", "C05", "C10", "C13", "C02"),
                               note={"groups": repr(pool), "program": 'def e { splitters: uid return %s }' % labels}, replay=case_replay))
-    run("groups", "_generate_group_return_statement", ("C03", "C05"), groups)
+    run("groups", "_generate_group_return_statement", ("C03", "C05", "C10", "C13", "C02"), groups)
 
     # ---- F. conditionals -----------------------------------------------------------------------------------------
     def conds():
@@ -457,7 +465,7 @@ def link_generator(ctx, mutate=None, tag=""):
                     cases.append(Case(pre + "_generate_conditionals/%s%s" % (name, ".elif-tail" if variant else ""), GFN + "_generate_conditionals",
                                       "%s clause: `%s <predicate>:` + true branch one level deeper + the rest of the chain as its else/elif clauses" % (ct, ct.lower()),
                                       wrap + head + real, wrap + head + exp, ("C02", "C07", "C14"), note={"conditional": ct, "false_branch": fb_kind}))
-    run("conditionals", "_generate_conditionals", ("C02", "C07"), conds)
+    run("conditionals", "_generate_conditionals", ("C02", "C07", "C14", "C03"), conds)
 
     # ---- G. key definition ---------------------------------------------------------------------------------------
     def keys():
@@ -506,7 +514,7 @@ def link_generator(ctx, mutate=None, tag=""):
                         cases.append(Case(pre + "generate_key_definition/%s[%d,%d]" % (name, i, j), GFN + "generate_key_definition",
                                           "key == <salt literal> + ''.join(map(str, [splitters in alphabetical order, distinct]))", real, D.key_expr(sv, names),
                                           ("C12", "C09", "C01", "C13", "C15", "C05"), mode="eval", note={"salt": sv, "splitters": names, "program": prog}, replay=case_replay))
-    run("keys", "generate_key_definition", ("C12", "C09"), keys)
+    run("keys", "generate_key_definition", ("C12", "C09", "C01", "C13", "C15", "C05", "C07"), keys)
 
     # ---- H. generate ---------------------------------------------------------------------------------------------
     def gen():
@@ -550,7 +558,7 @@ def link_generator(ctx, mutate=None, tag=""):
                         if I.havoc:
                             struct_obl("generate/%s.deterministic-order[%d]" % (name, i), "generate", "the generated text does not depend on set iteration order", False, str(I.havoc),
                                        ("C01", "C09"), model={"havoc": I.havoc})
-    run("generate", "generate", ("C14", "C07", "C09"), gen)
+    run("generate", "generate", ("C14", "C07", "C09", "C02", "C12", "C10", "C01"), gen)
 
     # ---- I. identifiers as Python names (C07 / C14 name capture) ------------------------------------------------------
     out.extend(identifier_obligations(pre, cases))
